@@ -455,6 +455,26 @@ def lookalike_programs():
     return out
 
 
+def rebind_program(r):
+    """The same NAME bound again while an earlier binding of it is still needed: labels, variables, functions (with and without
+    parameters, same and different arities), reduce/foreach variables, pattern variables - nested and in sequence, with generators
+    pending on the left so that the earlier binding is re-entered after the later one was made."""
+    g = lambda: r.choice(["(1, 2)", "1", "(., 1)", "range(2)", "empty", "(1, empty, 2)"])
+    t = r.choice([
+        "[label $x | (1, break $x, 2) | label $x | (., break $x, 3)]", "[label $x | (1, break $x) | label $x | .]", "[label $x | (%s, break $x) | (label $x | (., (10 | break $x))), (20 | break $x), 30]" % g(),
+        "[label $x | label $x | (1, break $x, 2)]", "[label $x | (label $x | 1, break $x, 2), 3, break $x, 4]", "[label $a | label $b | (1, break $a, 2)]", "[label $a | (label $b | (1, break $b, 2)), 3, break $a]",
+        "[label $x | %s | ., (label $x | (., break $x)), (if . == 2 then break $x else 7 end)]" % g(), "[range(3) | label $x | (., break $x, 9)]", "[label $x | range(3) | label $x | (., break $x, 9)]",
+        "def f(x): x; def f(x): x + 1; [f(1)]", "def f: 1; def f: 2; def g(x): 1; def g(x): 2; [f, g(.)]", "def f(x): \"old\"; def f(x): if . > 0 then . - 1 | f(x) else x end; [2 | f(\"new\", \"newer\")]",
+        "def f: 1; def f(a): 2; def f(a; b): 3; [f, f(0), f(0; 0)]", "def f(a): 1; def g: f(0); def f(a): 2; [g, f(0)]", "def f($a; $a): $a; [f(1; 2)]", "def f(a; a): a; [f(1; 2)]", "def f($a): def f($a): $a + 1; f($a * 10); [f(1)]",
+        "[1 as $x | ($x, $x + 10) | 2 as $x | [., $x]]", "[%s as $x | %s as $x | $x]" % (g(), g()), "[%s as $x | ($x | (10 as $x | $x)), $x]" % g(), "[. as [$a] | (1, 2) as $a | $a]", "[[1] as [$a] | [2] as [$a] | $a]",
+        "[%s as $x | (def f: $x; %s as $x | [f, $x])]" % (g(), g()), "[reduce (1, 2) as $x (0; reduce (10, 20) as $x (.; . + $x))]", "[foreach (1, 2) as $x (0; . + $x; foreach (10, 20) as $x (.; . + $x; [$x, .]))]",
+        "[1 as $x | reduce (2, 3) as $x (0; . + $x) | ., $x]", "[%s as [$a, $b] ?// $a | [$a, $b] | (. as [$b] | $b), $a]" % r.choice(["[1, 2]", "3", "([1], 2)"]), "[(1, 2) as $x | label $x | ($x, break $x, 5)]",
+        "[label $x | 1 as $x | ($x, break $x)]", "def x: 5; [1 as $x | label $x | (x, $x, break $x)]", "[%s as $x | %s as $y | %s as $x | [$x, $y]]" % (g(), g(), g()),
+        "[limit(3; label $x | repeat(label $x | (1, break $x)))]", "[label $x | (1, 2) | (label $x | ., break $x), (select(. == 2) | break $x)]",
+    ])
+    return t
+
+
 def join_program(r):
     """Control constructs whose branches END in a one-instruction value (variable load, constant, identity) and whose join point
     is followed by an instruction that replaces or drops the top of the stack - the shapes on which a peephole rewrite must know
